@@ -770,7 +770,7 @@ fn main() {
     let mut g = Global::default();
     for (n, t) in [("flags", Ty::U(32)), ("d_params_flags", Ty::U(32)), ("self_flags", Ty::U(32)), ("self_window_bits_max", Ty::U(8)),
                    ("out_len", Ty::U(64)), ("out_pos", Ty::U(64)), ("slice_len", Ty::U(64)), ("position", Ty::U(64)), ("max_count", Ty::U(64)),
-                   ("in_buf_len", Ty::U(64)), ("out_max", Ty::U(64)), ("d_params_prev_return_status", Ty::Enum("TDEFLStatus".into())), ("d_params_flush", Ty::Enum("TDEFLFlush".into())), ("flush", Ty::Enum("TDEFLFlush".into()))] { g.free.insert(n.to_string(), t); }
+                   ("in_buf_len", Ty::U(64)), ("out_max", Ty::U(64)), ("l_counter", Ty::U(32)), ("d_params_prev_return_status", Ty::Enum("TDEFLStatus".into())), ("d_params_flush", Ty::Enum("TDEFLFlush".into())), ("flush", Ty::Enum("TDEFLFlush".into()))] { g.free.insert(n.to_string(), t); }
 
     // pass 1: enums (discriminants), const and fn signatures
     let mut per_mod_items: Vec<Vec<&Item>> = vec![];
@@ -905,7 +905,8 @@ fn main() {
                 }
             }
         }
-        if ns == "InflCore" { fragment_geometry(&g, &fns, spec, &mut frag, &mut errors, &mut manifest, &mut add_manifest); if !frag.is_empty() { defs.push(("Gen.InflCore.geometry_rejects".into(), frag.clone())); } }
+        if ns == "InflCore" { fragment_geometry(&g, &fns, spec, &mut frag, &mut errors, &mut manifest, &mut add_manifest); if !frag.is_empty() { defs.push(("Gen.InflCore.geometry_rejects".into(), frag.clone())); }
+            fragment_decoder_guards(&g, &fns, spec, &mut defs, &mut errors, &mut manifest, &mut add_manifest); }
         if ns == "DeflCore" { fragment_routing(&g, &fns, spec, &mut frag, &mut errors, &mut manifest, &mut add_manifest); if !frag.is_empty() { defs.push(("Gen.DeflCore.route".into(), frag.clone())); }
             structural_consts(&fns, spec, &mut defs, &mut errors);
             let mut frag2 = String::new();
@@ -986,6 +987,53 @@ fn fragment_geometry(g: &Global, fns: &[FnSrc], spec: &ModSpec, out: &mut String
     writeln!(out, "-- fragment: parameter check at the top of decompress_with_limit ({}:{}); true = BadParam", spec.path, f.span.start().line).unwrap();
     writeln!(out, "def Gen.InflCore.geometry_rejects (flags : Int) (out_len : Int) (out_pos : Int) : Bool := Id.run do\n{}\n", body.join("\n")).unwrap();
     add(spec.path, "fragment geometry_rejects", f.span, &text, manifest);
+}
+
+/// Validity checks of the decoder that sit inside untranslated functions, as predicates over the
+/// locals they read (true = the stream is rejected):
+///  * `tree_oversubscribed(left)` and `tree_incomplete_rejects(total, bt, max_code_len)`: the
+///    conditions of the two `if`s in `init_tree` that return `Jump(BadTotalSymbols)`;
+///  * `fast_litlen_invalid(l_counter)` and `fast_dist_invalid(symbol)`: the conditions in
+///    `decompress_fast` that lead to `InvalidLitlen` / `InvalidDist`.
+fn fragment_decoder_guards(g: &Global, fns: &[FnSrc], spec: &ModSpec, defs: &mut Vec<(String, String)>, errors: &mut Vec<String>, manifest: &mut String, add: &mut dyn FnMut(&str, &str, Span, &str, &mut String)) {
+    use syn::visit::Visit;
+    struct Ifs<'a> { v: Vec<&'a ExprIf> }
+    impl<'ast> Visit<'ast> for Ifs<'ast> {
+        fn visit_expr_if(&mut self, i: &'ast ExprIf) { self.v.push(i); syn::visit::visit_expr_if(self, i); }
+    }
+    // the statements of a block, ignoring comments: does it (directly) send the decoder to `state`?
+    let leads_to = |b: &Block, state: &str| -> bool {
+        let t = b.to_token_stream().to_string();
+        t.contains(state) && b.stmts.len() <= 2
+    };
+    let mut emit = |fname: &str, state: &str, must_mention: &str, binds: &[(&str, Ty)], def: &str, params: &str, what: &str, defs: &mut Vec<(String, String)>, errors: &mut Vec<String>, manifest: &mut String| {
+        let f = match fns.iter().find(|f| f.key == fname) { Some(f) => f, None => { errors.push(format!("{}: {} not found", spec.path, fname)); return; } };
+        let mut v = Ifs { v: vec![] };
+        v.visit_block(f.block);
+        let hits: Vec<&ExprIf> = v.v.iter().cloned().filter(|i| leads_to(&i.then_branch, state) && i.cond.to_token_stream().to_string().contains(must_mention)).collect();
+        if hits.len() != 1 { errors.push(format!("{}: {}: expected exactly one check on `{}` leading to {}, found {}", spec.path, fname, must_mention, state, hits.len())); return; }
+        let mut tr = Tr::new(g, "InflCore");
+        for (n, t) in binds { tr.bind(n, t.clone()); }
+        match tr.ex(&hits[0].cond, &Ty::Bool) {
+            Ok((c, Ty::Bool)) => {
+                let mut out = String::new();
+                writeln!(out, "-- fragment: {} ({}:{}); true = rejected", what, spec.path, hits[0].span().start().line).unwrap();
+                writeln!(out, "def Gen.InflCore.{} {} : Bool := {}\n", def, params, c).unwrap();
+                defs.push((format!("Gen.InflCore.{}", def), out));
+                add(spec.path, &format!("fragment {}", def), hits[0].span(), &hits[0].cond.to_token_stream().to_string(), manifest);
+            }
+            Ok(_) => errors.push(format!("{}: {}: the check leading to {} is not a boolean expression", spec.path, fname, state)),
+            Err(e) => errors.push(format!("{}: {}: check leading to {}: {}", spec.path, fname, state, e)),
+        }
+    };
+    emit("init_tree", "BadTotalSymbols", "left", &[("left", Ty::I(32))], "tree_oversubscribed", "(left : Int)",
+        "over-subscription check in init_tree", defs, errors, manifest);
+    emit("init_tree", "BadTotalSymbols", "total", &[("total", Ty::U(32)), ("bt", Ty::U(64)), ("max_code_len", Ty::U(32))],
+        "tree_incomplete_rejects", "(total : Int) (bt : Int) (max_code_len : Int)", "incomplete-code check in init_tree", defs, errors, manifest);
+    emit("decompress_fast", "InvalidLitlen", "counter", &[("l_counter", Ty::U(32))], "fast_litlen_invalid", "(l_counter : Int)",
+        "literal/length symbol check in decompress_fast", defs, errors, manifest);
+    emit("decompress_fast", "InvalidDist", "symbol", &[("symbol", Ty::I(32))], "fast_dist_invalid", "(symbol : Int)",
+        "distance symbol check in decompress_fast", defs, errors, manifest);
 }
 
 /// The engine routing in `compress_inner`: the `let`s feeding `let compress_success = if … `
